@@ -24,6 +24,7 @@ import (
 	"os"
 	"path/filepath"
 	"regexp"
+	"runtime"
 	"sort"
 	"strconv"
 	"strings"
@@ -199,7 +200,11 @@ func TestVerifC04(t *testing.T) {
 // ------------------------------------------------------------------ (a)
 
 func c04Seq(t *testing.T, run *verifkit.Run, base string) {
-	n := run.N(700, 20000)
+	// keepstore's buffer pool is a sync.Pool of 64 MiB buffers, i.e. per-P
+	// caches: under the race detector a fresh 64 MiB allocation per request
+	// and per P costs ~10x the CPU. This stream is sequential anyway.
+	defer runtime.GOMAXPROCS(runtime.GOMAXPROCS(1))
+	n := run.N(500, 20000)
 	caseNo := 0
 	run.Cases("seq", n, func(i int, rng *verifkit.Rand) {
 		caseNo++
